@@ -899,6 +899,112 @@ func ReversedForwards(p *load.Prog, r *oblig.Report, rule string) {
 	} else {
 		r.Bad(rule, "reversed-direction", p.Pos(fn.Pos()), "Reversed does not negate drawingDirection")
 	}
+	reversedIndex(p, r, rule, fn)
+}
+
+// reversedIndex: the label index of the reversed graph is the receiver's index — the same map, a
+// maps.Clone of it, or a fresh map filled with m[k] = v for every (k, v) of a range over it.
+func reversedIndex(p *load.Prog, r *oblig.Report, rule string, fn *ssa.Function) {
+	const construct = "reversed-label-index"
+	isRecvIDs := func(v ssa.Value) bool {
+		ld, ok := v.(*ssa.UnOp)
+		if !ok || ld.Op != token.MUL {
+			return false
+		}
+		fa, ok := ld.X.(*ssa.FieldAddr)
+		return ok && fieldName(fa) == "ids" && len(fn.Params) > 0 && fa.X == fn.Params[0]
+	}
+	found := false
+	for _, b := range fn.Blocks {
+		for _, in := range b.Instrs {
+			st, ok := in.(*ssa.Store)
+			if !ok {
+				continue
+			}
+			fa, ok := st.Addr.(*ssa.FieldAddr)
+			if !ok || fieldName(fa) != "ids" {
+				continue
+			}
+			if _, lit := fa.X.(*ssa.Alloc); !lit {
+				continue
+			}
+			if named := namedOfType(fa.X.Type()); named != "AuthorizationModelGraph" {
+				continue
+			}
+			found = true
+			v := st.Val
+			if ct, ok := v.(*ssa.ChangeType); ok {
+				v = ct.X
+			}
+			switch x := v.(type) {
+			case *ssa.UnOp:
+				if isRecvIDs(x) {
+					r.OK(rule, construct, p.Pos(st.Pos()), "shared", "the reversed graph uses the receiver's index (ids are immutable strings → int64)")
+					continue
+				}
+			case *ssa.Call:
+				if c := x.Common().StaticCallee(); c != nil && c.Name() == "Clone" && len(x.Common().Args) == 1 && isRecvIDs(x.Common().Args[0]) {
+					r.OK(rule, construct, p.Pos(st.Pos()), "maps.Clone", "")
+					continue
+				}
+			case *ssa.MakeMap:
+				why := ""
+				updates := 0
+				if x.Referrers() != nil {
+					for _, ref := range *x.Referrers() {
+						mu, ok := ref.(*ssa.MapUpdate)
+						if !ok {
+							continue
+						}
+						updates++
+						k, ok1 := mu.Key.(*ssa.Extract)
+						val, ok2 := mu.Value.(*ssa.Extract)
+						if !ok1 || !ok2 || k.Tuple != val.Tuple || k.Index != 1 || val.Index != 2 {
+							why = "an entry is written that is not the (key, value) pair of the iteration over the receiver's index"
+							continue
+						}
+						nx, ok := k.Tuple.(*ssa.Next)
+						if !ok {
+							why = "an entry does not come from a range"
+							continue
+						}
+						rg, ok := nx.Iter.(*ssa.Range)
+						if !ok || !isRecvIDs(rg.X) {
+							why = "the copied map is not the receiver's index"
+							continue
+						}
+						// unconditional in the loop body: the update's block is the body entered straight from the loop test
+						if len(mu.Block().Preds) != 1 || mu.Block().Preds[0] != nx.Block() {
+							why = "an entry of the receiver's index is copied only conditionally"
+						}
+					}
+				}
+				if updates == 0 {
+					why = "the new index is never filled"
+				}
+				if why == "" {
+					r.OK(rule, construct, p.Pos(st.Pos()), "key-for-key copy", "fresh map filled with every (label, id) of the receiver's index")
+					continue
+				}
+				r.Bad(rule, construct, p.Pos(st.Pos()), "the label index of the reversed graph is not a faithful copy of the receiver's: "+why+" — label lookup and path queries on the reversed graph resolve differently")
+				continue
+			}
+			r.Bad(rule, construct, p.Pos(st.Pos()), "the label index of the reversed graph does not come from the receiver's index (it is "+v.String()+"): label lookup on the reversed graph can find other nodes than on the original")
+		}
+	}
+	if !found {
+		r.Unknown(rule, construct, p.Pos(fn.Pos()), "no AuthorizationModelGraph literal with an ids field found in Reversed")
+	}
+}
+
+func namedOfType(t types.Type) string {
+	if ptr, ok := t.Underlying().(*types.Pointer); ok {
+		t = ptr.Elem()
+	}
+	if n, ok := t.(*types.Named); ok {
+		return n.Obj().Name()
+	}
+	return ""
 }
 
 func fieldName(fa *ssa.FieldAddr) string {
